@@ -237,7 +237,7 @@ Proof.
   revert sn sd. induction ls as [|nr ls IH]; intros sn sd; [constructor|]. cbn [validate_layers].
   destruct (plain_name nr.2) as [d|] eqn:E; [|discriminate].
   destruct (bool_decide (nr.1 ∈ sn)); [discriminate|].
-  destruct (bool_decide (d ∈ sd)); [discriminate|].
+  destruct (bool_decide (lower d ∈ sd)); [discriminate|].
   destruct (_ && _); [discriminate|]. intros H. constructor; [|by eapply IH].
   exists d. by apply plain_name_Some.
 Qed.
@@ -246,7 +246,7 @@ Lemma validate_glifs_plain seen gs :
 Proof.
   revert seen. induction gs as [|g gs IH]; intros seen; [constructor|]. cbn [validate_glifs].
   destruct (plain_name g.2) as [fn|] eqn:E; [|discriminate].
-  destruct (bool_decide (fn ∈ seen)); [discriminate|]. intros H. constructor; [|by eapply IH].
+  destruct (bool_decide (lower fn ∈ seen)); [discriminate|]. intros H. constructor; [|by eapply IH].
   exists fn. by apply plain_name_Some.
 Qed.
 
